@@ -321,8 +321,7 @@ theorem same_unlock (s s1 : State) (owner : String) (amt : Coins) (a : Acct)
           · cases h
           · split at h
             · cases h
-            · simp only [] at h
-              split at h
+            · split at h
               · cases h; exact ⟨rfl, rfl, rfl, rfl, rfl, rfl⟩
               · cases h
               · cases h
